@@ -62,6 +62,11 @@ async fn raw_replier(peer: RawPeer, topic: String, timeout_ms: u64) -> anyhow::R
                     });
                 }
                 "never" => {}
+                "garbage" => {
+                    // a correctly correlated reply that the requestor's decoder rejects (invalid UTF-8)
+                    let f = Frame::Message(MessagePayload { headers: req.headers.clone(), message: vec![0xffu8, 0xfe, 0xc0, 0x80].into() });
+                    let _ = tx.send((Duration::ZERO, f));
+                }
                 "slow" => {
                     // a replier that is slow to take the next request: the router blocks on its sink, the
                     // requestors' streams fill up and their sends have to wait for one another
@@ -267,6 +272,16 @@ pub async fn run_case(client: &Client, addr: std::net::SocketAddr, certs: &Certs
                 let t0 = Instant::now();
                 let rc = q.request(pc.clone()).await;
                 let _ = writeln!(out, "call {} {} quick {} -> {} {}", s_t, 410 + k, pc, outcome(rc), t0.elapsed().as_millis());
+                // on the same handle: a reply that cannot be decoded (an error for that call), then a quick
+                // call that must get its own reply and nothing left over from the undecodable one
+                let pg = format!("rq-{}-4-g{}|garbage", s_t, k);
+                let t0 = Instant::now();
+                let rg = q.request(pg.clone()).await;
+                let _ = writeln!(out, "call {} {} garbage {} -> {} {}", s_t, 420 + k, pg, outcome(rg), t0.elapsed().as_millis());
+                let ph = format!("rq-{}-4-h{}|quick", s_t, k);
+                let t0 = Instant::now();
+                let rh = q.request(ph.clone()).await;
+                let _ = writeln!(out, "call {} {} quick {} -> {} {}", s_t, 430 + k, ph, outcome(rh), t0.elapsed().as_millis());
             }
         }
     }
